@@ -397,6 +397,10 @@ class _Deepest(Client):
                 args = self.db.call_args(x)
                 if len(args) == 2 and canon(args[1]) == "split->splits":
                     st = True
+            if x.get("kind") == "BinaryOperator" and x.get("opcode") == "=" and canon(kids(x)[0]) == "split":
+                st = False            # `split` now names another OutRec: its splits have not been searched yet
+            if x.get("kind") == "VarDecl" and x.get("name") == "split":
+                st = False
             if x.get("kind") == "BinaryOperator" and x.get("opcode") == "=" and canon(kids(x)[0]) == "outrec->owner" and canon(kids(x)[1]) == "split":
                 self.assigns += 1
                 if not st:
@@ -409,8 +413,11 @@ class _Deepest(Client):
     def cond_atom(self, e, st):
         # `split->splits && CheckSplitOwner(outrec, split->splits)`: when split->splits is null there is nothing deeper
         e0 = _u(e)
-        if canon(e0) == "split->splits":
+        c0 = canon(e0)
+        if c0 in ("split->splits", "(split->splits != nullptr)", "(nullptr != split->splits)"):
             return st, True
+        if c0 in ("(split->splits == nullptr)", "(nullptr == split->splits)"):
+            return True, st
         s = self._scan(e, st)
         return s, s
 
@@ -419,7 +426,7 @@ def rule_deepest_first(db, chk, cfg, rule="OWNER.deepest-first"):
     """CheckSplitOwner: an outrec is assigned to `split` as owner only after the splits of `split` have been searched
     (and did not contain it): the innermost containing split becomes the owner."""
     f = db.one("ClipperBase::CheckSplitOwner")
-    loops = [x for x in kids(f.body) if x.get("kind") == "CXXForRangeStmt"]
+    loops = [x for x in kids(f.body) if x.get("kind") in ("CXXForRangeStmt", "ForStmt", "WhileStmt") and "outrec->owner = split" in canon(x)]
     if len(loops) != 1:
         raise AnalysisBroken("loop over splits in CheckSplitOwner not found")
     body = kids(loops[0])[-1]
